@@ -71,3 +71,29 @@ Theorem C11_tie_CellBytes : forall ffmt tz jsonp fuel d pos typ meta uns,
           (flat (cell_bytes ffmt tz jsonp d pos typ meta uns)).
 Proof. exact CellBytes_tie_decimal. Qed.
 Print Assumptions C11_tie_CellBytes.
+
+(* From the Go source to the specification.  The translated Go function itself, applied to any row buffer that holds
+   the encoding of a well-formed value of a well-formed column type of this property (anything before and after it),
+   returns the canonical text of the value and the number of bytes the encoding occupies: C11_tie_CellBytes (generated
+   code = model, all inputs) composed with the cell theorems above (model on the encoder's output = specification text).
+   The hand-written model no longer occurs in the statement: it is about the translation of /repo's CellBytes, the
+   specification encoder enc_cell and the specification text only.  Premises: the buffer holds bytes, |tz| <= 86400,
+   the JSON oracle is the proved printer for JSON columns (jsonp_for), fuel >= 1000. *)
+From GB Require Import Spec.ColTypes Proofs.CellAll Proofs.SourceCells.
+Theorem C11_source_decodes : forall ffmt tz efmt jsonp fuel ty uns v pre rest,
+  In (code_of ty) [246] -> (forall i : Z, -86400 <= tz i <= 86400) ->
+  jsonp_for efmt jsonp ty -> wf_type ty = true -> wf_value ty uns v = true -> (1000 <= fuel)%nat ->
+  wf_bytes (pre ++ enc_cell ty v ++ rest) -> Z.of_nat (length pre) < 2 ^ 62 ->
+  CellBytes_g ffmt (print_timestamp tz) jsonp fuel (pre ++ enc_cell ty v ++ rest) (Z.of_nat (length pre)) (code_of ty) (meta_of ty) uns
+    = Ok (text ffmt tz efmt ty uns v, len (enc_cell ty v)).
+Proof.
+  exact (fun ffmt tz efmt jsonp fuel ty uns v pre rest H =>
+           CellBytes_decodes_encoded_on ffmt tz efmt jsonp _ fuel ty uns v pre rest (CellBytes_tie_decimal ffmt tz jsonp) H).
+Qed.
+Print Assumptions C11_source_decodes.
+(* DECIMAL(10,2) -12345.60: bytes 7f cf c6 c3 (inverted), text "-12345.60" *)
+Example C11_source_nonvacuous :
+  CellBytes_g (fun _ _ => []) (fun _ => []) (fun _ => Err EJson) 1000 (enc_cell (TNewDecimal 10 2) (VDecimal true [0;0;0;1;2;3;4;5] [6;0])) 0 246 (10 * 256 + 2) false
+    = Ok ([45; 49; 50; 51; 52; 53; 46; 54; 48], 5).
+Proof. vm_compute. reflexivity. Qed.
+
